@@ -24,6 +24,36 @@ from guppylang_internals.checker.core import Variable
 from guppylang_internals.error import GuppyError
 from guppylang_internals.tys.ty import InputFlags, type_to_row
 
+# ---- C06's structural dumper of the CheckedCFG[Variable] that reaches check_cfg_linearity -----
+# (props/C06/impl_lin.py runs its main() on import, so only its definitions are loaded)
+_c06_dumps = {}
+try:
+    import guppylang_internals.checker.linearity_checker as _lc
+    _src = open(os.path.join(os.path.dirname(os.path.abspath(__file__)), "..", "C06", "impl_lin.py")).read()
+    _ns = {"__name__": "c06_impl_lin_defs"}
+    exec(compile(_src[:_src.index("records = []")], "impl_lin.py", "exec"), _ns)
+    _Dumper = _ns["Dumper"]
+    _orig_lin = _lc.check_cfg_linearity
+
+    def _rec_lin(cfg, func_name, globals):
+        d = _Dumper()
+        rec = {}
+        try:
+            rec["dump"] = d.cfg(cfg)
+        except Exception as e:  # noqa: BLE001
+            d.unmodelled.append(f"dump failed: {type(e).__name__}: {e}")
+        rec["unmodelled"] = sorted(set(d.unmodelled))
+        rec["names"] = [n for n, _ in sorted(d.ids.items(), key=lambda kv: kv[1])]
+        _c06_dumps[func_name] = rec
+        return _orig_lin(cfg, func_name, globals)
+    _lc.check_cfg_linearity = _rec_lin
+    for _m in list(sys.modules.values()):
+        if _m is not None and _m is not _lc and getattr(_m, "check_cfg_linearity", None) is _orig_lin:
+            _m.check_cfg_linearity = _rec_lin
+    _C06_ERR = None
+except Exception as _e:  # noqa: BLE001
+    _C06_ERR = f"{type(_e).__name__}: {_e}"
+
 _orig_cfg, _orig_bb = cc.compile_cfg, cc.compile_bb
 _stack = []
 _records = []
@@ -66,6 +96,44 @@ def dump_cfg(cfg, ctx):
                        for v in entry.sig.input_row]}
 
 
+def read_conditional(hugr, block, block_op):
+    """For a block whose Sum variants carry values: the Conditional that produces the branch Sum
+    (other-input types, and per Case the Input offsets wired into its Tag)."""
+    if not any(len(r) for r in block_op.sum_ty.variant_rows):
+        return None
+    out_node = hugr.children(block)[1]
+    src = list(hugr.linked_ports(out_node.inp(0)))
+    if not src:
+        return {"error": "branch port of the block is not connected"}
+    cnode = src[0].node
+    cop = hugr[cnode].op
+    if not isinstance(cop, ops.Conditional):
+        return {"error": f"branch Sum comes from {type(cop).__name__}, not a Conditional"}
+    pred = list(hugr.linked_ports(cnode.inp(0)))
+    cases = []
+    for case in hugr.children(cnode):
+        kids = hugr.children(case)
+        inp = kids[0]
+        tags = [k for k in kids if isinstance(hugr[k].op, ops.Tag)]
+        if len(tags) != 1:
+            cases.append({"error": f"{len(tags)} Tag nodes"})
+            continue
+        tag = tags[0]
+        offs = []
+        for j in range(hugr.num_in_ports(tag)):
+            links = list(hugr.linked_ports(tag.inp(j)))
+            if len(links) == 1 and links[0].node == inp:
+                offs.append(links[0].offset)
+            elif links:
+                offs.append(-2)
+        # the Tag must feed the Case output
+        cases.append({"tag": hugr[tag].op.tag, "offsets": offs,
+                      "n_case_inputs": hugr.num_out_ports(inp)})
+    return {"pred_rows": [len(r) for r in cop.sum_ty.variant_rows],
+            "other_inputs": [_tt.id(t) for t in cop.other_inputs], "cases": cases,
+            "pred_from": type(hugr[pred[0].node].op).__name__ if pred else None}
+
+
 def _rec_compile_cfg(cfg, container, inputs, ctx):
     cur = {"pre": dump_cfg(cfg, ctx), "nodes": {}}
     _stack.append(cur)
@@ -90,7 +158,7 @@ def _rec_compile_cfg(cfg, container, inputs, ctx):
         for k in range(hugr.num_out_ports(node)):
             links = list(hugr.linked_ports(node.out(k)))
             succ_nodes.append(links[0].node.idx if links else None)
-        blocks.append({"exit": False, "node": node.idx,
+        blocks.append({"exit": False, "node": node.idx, "cond": read_conditional(hugr, node, op),
                        "inputs": [_tt.id(t) for t in op.inputs],
                        "variants": [[_tt.id(t) for t in row] for row in op.sum_ty.variant_rows],
                        "others": [_tt.id(t) for t in op.other_outputs],
@@ -138,6 +206,7 @@ def finish_records():
             cur["func_name"] = op.f_name
             cur["func_inputs"] = [_tt.id(t) for t in op.inputs]
         cur["func_outputs"] = fo
+        cur["c06"] = _c06_dumps.get(cur.get("func_name")) if _C06_ERR is None else {"unmodelled": ["C06 dumper unavailable: " + _C06_ERR]}
         out.append(cur)
     return out
 
@@ -155,6 +224,7 @@ def run_one(prog, k):
     _tt = TyTable()
     _records.clear()
     _stack.clear()
+    _c06_dumps.clear()
     res = {"id": prog["id"]}
     name = f"c01prog_{os.getpid()}_{k}"
     path = os.path.join(os.getcwd(), name + ".py")
